@@ -110,9 +110,10 @@ type Plan struct {
 	Free     bool   `json:"free,omitempty"`      // free mode (race leg)
 	Scenario string `json:"scenario,omitempty"`
 	// corruption (C11): probability per response / meta row, and budget
-	Corrupt     float64 `json:"corrupt,omitempty"`
-	CorruptMax  int     `json:"corrupt_max,omitempty"`
-	CorruptMeta float64 `json:"corrupt_meta,omitempty"`
+	Corrupt       float64 `json:"corrupt,omitempty"`
+	CorruptMax    int     `json:"corrupt_max,omitempty"`
+	CorruptMeta   float64 `json:"corrupt_meta,omitempty"`
+	CorruptSticky bool    `json:"corrupt_sticky,omitempty"`
 }
 
 func ms(n int) time.Duration { return time.Duration(n) * time.Millisecond }
